@@ -552,3 +552,106 @@ Qed.
 
 Example ex_streams_wf : forallb stream_wf (map toks_of ex_trees) = true /\ stream_wf ex_tail_line = false /\ stream_wf [TObjS; TKey "a"; TNum "+1"; TObjE] = false.
 Proof. split; [vm_compute; reflexivity|]. split; vm_compute; reflexivity. Qed.
+
+(* ------------------------------------------------------------------ the converse of parse_toks_of: what [parse] accepts IS the token list of
+   the tree it returns.  Invariant: the tokens consumed so far are the tokens of the finished top-level value (if any) followed by,
+   from the bottom of the stack to its top, the opening bracket of each open frame, its finished members / elements and its pending key. *)
+Local Open Scope list_scope.
+Definition frame_toks (f : frame) : list tok :=
+  match f with
+  | FObj done key => TObjS :: toks_members (rev done) ++ match key with Some k => [TKey k] | None => [] end
+  | FArr done => TArrS :: toks_elems (rev done)
+  end.
+Definition state_toks (s : pstate) : list tok :=
+  match p_res s with Some v => toks_of v | None => [] end ++ List.concat (map frame_toks (rev (p_stack s))).
+
+Lemma toks_members_app a b : toks_members (a ++ b) = toks_members a ++ toks_members b.
+Proof. unfold toks_members. apply flat_map_app. Qed.
+Lemma toks_elems_app a b : toks_elems (a ++ b) = toks_elems a ++ toks_elems b.
+Proof. unfold toks_elems. apply flat_map_app. Qed.
+Lemma concat_snoc {A} (l : list (list A)) x : List.concat (l ++ [x]) = List.concat l ++ x.
+Proof. rewrite concat_app. cbn [List.concat]. rewrite app_nil_r. reflexivity. Qed.
+
+Lemma push_val_toks s v s' : push_val s v = Some s' -> state_toks s' = state_toks s ++ toks_of v.
+Proof.
+  unfold push_val, state_toks. destruct s as [stk res]. cbn [p_stack p_res].
+  destruct stk as [|[done [k|]|done] r].
+  - destruct res; [discriminate|]. intro H. inversion H; subst s'. cbn [p_stack p_res rev map List.concat app]. rewrite app_nil_r. reflexivity.
+  - intro H. inversion H; subst s'. cbn [p_stack p_res rev map]. rewrite !map_app. cbn [map]. rewrite !concat_snoc. cbn [frame_toks rev].
+    rewrite toks_members_app. cbn [toks_members flat_map fst snd]. rewrite ?app_nil_r, <- ?app_assoc. cbn [app]. rewrite <- ?app_assoc. reflexivity.
+  - discriminate.
+  - intro H. inversion H; subst s'. cbn [p_stack p_res rev map]. rewrite !map_app. cbn [map]. rewrite !concat_snoc. cbn [frame_toks rev].
+    rewrite toks_elems_app. cbn [toks_elems flat_map]. rewrite ?app_nil_r, <- ?app_assoc. cbn [app]. rewrite <- ?app_assoc. reflexivity.
+Qed.
+
+Lemma p_step_toks s t s' : p_step (Some s) t = Some s' -> state_toks s' = state_toks s ++ [t].
+Proof.
+  destruct t; cbn [p_step]; try (intro H; apply push_val_toks in H; exact H); try discriminate.
+  - (* TObjS *) intro H. inversion H; subst s'. unfold state_toks. cbn [p_stack p_res rev]. rewrite map_app. cbn [map]. rewrite concat_snoc. cbn [frame_toks rev toks_members flat_map app].
+    rewrite <- ?app_assoc. reflexivity.
+  - (* TObjE *) destruct s as [stk res]. cbn [p_stack p_res]. destruct stk as [|[done [k|]|done] r]; try discriminate.
+    intro H. apply push_val_toks in H. rewrite H. unfold state_toks. cbn [p_stack p_res rev]. rewrite map_app. cbn [map]. rewrite concat_snoc. cbn [frame_toks].
+    rewrite toks_of_TO, app_nil_r, <- ?app_assoc. cbn [app]. rewrite <- ?app_assoc. reflexivity.
+  - (* TArrS *) intro H. inversion H; subst s'. unfold state_toks. cbn [p_stack p_res rev]. rewrite map_app. cbn [map]. rewrite concat_snoc. cbn [frame_toks rev toks_elems flat_map app].
+    rewrite <- ?app_assoc. reflexivity.
+  - (* TArrE *) destruct s as [stk res]. cbn [p_stack p_res]. destruct stk as [|[done [k|]|done] r]; try discriminate.
+    intro H. apply push_val_toks in H. rewrite H. unfold state_toks. cbn [p_stack p_res rev]. rewrite map_app. cbn [map]. rewrite concat_snoc. cbn [frame_toks].
+    rewrite toks_of_TA, <- ?app_assoc. cbn [app]. rewrite <- ?app_assoc. reflexivity.
+  - (* TKey *) destruct s as [stk res]. cbn [p_stack p_res]. destruct stk as [|[done [k|]|done] r]; try discriminate.
+    intro H. inversion H; subst s'. unfold state_toks. cbn [p_stack p_res rev]. rewrite !map_app. cbn [map]. rewrite !concat_snoc. cbn [frame_toks].
+    rewrite ?app_nil_r, <- ?app_assoc. cbn [app]. rewrite <- ?app_assoc. reflexivity.
+Qed.
+
+Lemma fold_p_step_none ts : fold_left p_step ts None = None.
+Proof. induction ts as [|t ts IH]; [reflexivity|exact IH]. Qed.
+Lemma fold_p_step_toks ts : forall s s', fold_left p_step ts (Some s) = Some s' -> state_toks s' = state_toks s ++ ts.
+Proof.
+  induction ts as [|t ts IH]; intros s s' H; cbn [fold_left] in H.
+  - inversion H; subst. rewrite app_nil_r. reflexivity.
+  - destruct (p_step (Some s) t) as [s1|] eqn:E; [|rewrite fold_p_step_none in H; discriminate].
+    rewrite (IH s1 s' H), (p_step_toks s t s1 E), <- app_assoc. reflexivity.
+Qed.
+
+Theorem parse_only_toks_of ts t : parse ts = Some t -> ts = toks_of t.
+Proof.
+  unfold parse, p_init. destruct (fold_left p_step ts _) as [s|] eqn:E; [|discriminate].
+  destruct s as [stk res]. cbn [p_stack p_res]. destruct stk; [|discriminate]. intros ->.
+  apply fold_p_step_toks in E. unfold state_toks in E. cbn [p_stack p_res rev map List.concat app] in E. rewrite app_nil_r in E. symmetry. exact E.
+Qed.
+
+(* parse is a bijection between the accepted token lists and the JSON values *)
+Corollary parse_iff ts t : parse ts = Some t <-> ts = toks_of t.
+Proof. split; [apply parse_only_toks_of|intros ->; apply parse_toks_of]. Qed.
+
+(* hence the "re-serialises to itself" half of stream_wf is implied by the other two: a stream is well formed iff it parses to a
+   value whose numbers are JSON numbers *)
+Corollary stream_wf_iff ts : stream_wf ts = true <-> exists t, parse ts = Some t /\ jt_ok t = true.
+Proof.
+  unfold stream_wf. split.
+  - destruct (parse ts) as [t|]; [|discriminate]. intro H. apply andb_true_iff in H. exists t. split; [reflexivity|apply H].
+  - intros (t & Hp & Hok). rewrite Hp, Hok. rewrite <- (parse_only_toks_of ts t Hp). cbn [andb].
+    clear. unfold list_eqb. induction ts as [|a ts IH]; [reflexivity|]. cbn [all2]. rewrite IH, andb_true_r.
+    destruct a; try reflexivity; apply String.eqb_refl.
+Qed.
+
+(* the check's hypothesis in its weaker form: a stream that parses to one value whose numbers are JSON numbers *)
+Lemma stream_ok_wf ts : stream_ok ts = stream_wf ts.
+Proof.
+  destruct (stream_wf ts) eqn:E.
+  - apply stream_wf_iff in E. destruct E as (t & Hp & Hok). unfold stream_ok. rewrite Hp. exact Hok.
+  - destruct (stream_ok ts) eqn:E'; [|reflexivity]. exfalso. unfold stream_ok in E'.
+    destruct (parse ts) as [t|] eqn:Hp; [|discriminate].
+    assert (H : stream_wf ts = true) by (apply stream_wf_iff; exists t; split; [exact Hp|exact E']). congruence.
+Qed.
+Theorem read_back_parsed_streams_l : forall nd tss rows ps,
+  forallb stream_ok tss = true ->
+  zt_decode fixed false nd tss = Some rows -> pushed_of (zin nd tss) = Some ps ->
+  Forall2 row_of ps (map fst rows) /\ Forall2 tags_of ps (map snd rows) /\
+  Forall2 (fun p sr => reads_back p (read_row_tok fixed tss (fst sr))) ps rows.
+Proof.
+  intros nd tss rows ps H. apply read_back_token_streams_l.
+  rewrite <- H. clear. induction tss as [|ts r IH]; [reflexivity|]. cbn [forallb]. rewrite IH, stream_ok_wf. reflexivity.
+Qed.
+Example ex_streams_ok : forallb stream_ok (map toks_of ex_trees) = true /\ stream_ok ex_tail_line = false
+  /\ parse [TObjS; TKey "a"; TObjE] = None /\ parse [TNull; TNull] = None /\ parse [] = None.
+Proof. vm_compute. repeat split; reflexivity. Qed.
